@@ -95,7 +95,7 @@ def main():
             print("DRIVER BUILD FAILED")
             sys.exit(1)
     if what in ("all", "harness"):
-        for prof in ("dev", "release"):
+        for prof in ("dev", "release", "dbg"):
             ok, log = build_harness(prof)
             print(log[-1500:])
             if not ok:
